@@ -84,7 +84,9 @@ struct hconn {
 };
 static struct hconn hc[MAXC];
 
-struct hresp { int used; char kind[16]; size_t size; struct MHD_Response *obj; int freed; char *buf; };
+struct hresp { int used; char kind[16]; size_t size; struct MHD_Response *obj; int freed; char *buf;
+               unsigned n, mix;        /* iovec: number of elements; mix: every second element is empty */
+               int rfd, rfd_open; };   /* pipe / file responses: the descriptor the response owns */
 static struct hresp hr[MAXRESP];
 
 static volatile unsigned long ev_counter;   /* every logged event (any thread) */
@@ -148,6 +150,15 @@ static int close_locked (int fd)
       for (c = 0; c < MAXC; c++) if (hc[c].used && hc[c].sfd == fd) break;
       printf ("double-close c=%d\n", c < MAXC ? c : -1);
       return 0;
+    }
+  for (i = 0; i < MAXRESP; i++)
+    if (hr[i].used && hr[i].rfd_open && hr[i].rfd == fd)
+    { /* a response gives up the descriptor it owns: its "free callback" */
+      hr[i].rfd_open = 0; hr[i].freed++; hr[i].obj = NULL;
+      __atomic_add_fetch (&ev_counter, 1, __ATOMIC_SEQ_CST);
+      printf ("free-cb rid=%d\n", i);
+      if (devnull >= 0 && nparked < MAXC * 2 && fd == dup2 (devnull, fd)) { parked[nparked++] = fd; return 0; }
+      return (int) syscall (SYS_close, fd);
     }
   for (c = 0; c < MAXC; c++)
     if (hc[c].used && hc[c].sfd_open && hc[c].sfd == fd)
@@ -270,6 +281,17 @@ static void resp_free_cb (void *cls)
   free (x);
   APP_LEAVE;
 }
+/* MHD_create_response_from_buffer_with_free_callback: the callback gets the buffer itself */
+static void buf_free_cb (void *p)
+{
+  int rid;
+  APP_ENTER;
+  for (rid = 0; rid < MAXRESP; rid++) if (hr[rid].used && p == (void *) hr[rid].buf) break;
+  out ("free-cb rid=%d", rid < MAXRESP ? rid : -1);
+  if (rid < MAXRESP) { hr[rid].freed++; hr[rid].obj = NULL; hr[rid].buf = NULL; }
+  free (p);
+  APP_LEAVE;
+}
 static void upgrade_cb (void *cls, struct MHD_Connection *connection, void *req_cls,
                         const char *extra_in, size_t extra_in_size, MHD_socket sock,
                         struct MHD_UpgradeResponseHandle *urh)
@@ -278,7 +300,16 @@ static void upgrade_cb (void *cls, struct MHD_Connection *connection, void *req_
   APP_ENTER;
   (void) cls; (void) connection; (void) extra_in; (void) extra_in_size; (void) sock;
   out ("upgrade c=%d", c);
-  if (c >= 0 && c < MAXC) { hc[c].urh = urh; hc[c].upgraded = 1; }
+  if (c >= 0 && c < MAXC)
+  {
+    int r = hc[c].nreq_seen - 1;
+    if (r >= 0 && r < 8 && ! strcmp (hc[c].beh[r], "upgradec"))
+    { /* the application is done with the session before its upgrade handler returns */
+      enum MHD_Result q; LIB (q = MHD_upgrade_action (urh, MHD_UPGRADE_ACTION_CLOSE));
+      if (MHD_YES != q) out ("fault upgrade-close-inside-handler-refused");
+    }
+    else { hc[c].urh = urh; hc[c].upgraded = 1; }
+  }
   APP_LEAVE;
 }
 
@@ -293,11 +324,63 @@ static struct MHD_Response *make_resp (int rid)
     LIB (m = MHD_create_response_from_buffer_with_free_callback_cls (r->size, r->buf, &resp_free_cb, x));
     if (NULL == m) { free (r->buf); r->buf = NULL; free (x); }
   }
-  else if (! strcmp (r->kind, "cb"))
+  else if (! strcmp (r->kind, "freecbnull"))
+  { /* no buffer at all, size 0, still a callback to run */
+    struct cbctx *x = (struct cbctx *) calloc (1, sizeof (*x)); x->rid = rid; r->size = 0;
+    LIB (m = MHD_create_response_from_buffer_with_free_callback_cls (0, NULL, &resp_free_cb, x));
+    if (NULL == m) free (x);
+  }
+  else if (! strcmp (r->kind, "bufcb"))
+  {
+    r->buf = (char *) malloc (r->size ? r->size : 1);
+    for (i = 0; i < r->size; i++) r->buf[i] = (char) pat (rid, i);
+    LIB (m = MHD_create_response_from_buffer_with_free_callback (r->size, r->buf, &buf_free_cb));
+    if (NULL == m) { free (r->buf); r->buf = NULL; }
+  }
+  else if (! strcmp (r->kind, "iov"))
+  { /* scatter/gather response: n elements of `size` bytes (mix: every second one empty); n may be 0 */
+    struct cbctx *x = (struct cbctx *) calloc (1, sizeof (*x));
+    struct MHD_IoVec *iov = (struct MHD_IoVec *) calloc (r->n ? r->n : 1, sizeof (*iov)); unsigned k;
+    x->rid = rid; if (r->n > 8) r->n = 8;
+    r->buf = (char *) malloc (r->n * r->size + 1);
+    for (k = 0; k < r->n; k++)
+    {
+      iov[k].iov_base = r->buf + k * r->size;
+      iov[k].iov_len = (r->mix && 0 == k % 2) ? 0 : r->size;
+      for (i = 0; i < r->size; i++) r->buf[k * r->size + i] = (char) pat (rid, k * r->size + i);
+    }
+    LIB (m = MHD_create_response_from_iovec (iov, r->n, &resp_free_cb, x));
+    free (iov);      /* the array itself is copied by the library */
+    if (NULL == m) { free (r->buf); r->buf = NULL; free (x); }
+  }
+  else if (! strcmp (r->kind, "cb") || ! strcmp (r->kind, "cbunk"))
   {
     struct cbctx *x = (struct cbctx *) calloc (1, sizeof (*x)); x->rid = rid;
-    LIB (m = MHD_create_response_from_callback ((uint64_t) r->size, 262144, &content_cb, x, &resp_free_cb));
+    LIB (m = MHD_create_response_from_callback (! strcmp (r->kind, "cbunk") ? MHD_SIZE_UNKNOWN : (uint64_t) r->size,
+                                                262144, &content_cb, x, &resp_free_cb));
     if (NULL == m) free (x);
+  }
+  else if (! strcmp (r->kind, "pipe") || ! strcmp (r->kind, "fd"))
+  { /* the response owns a descriptor and has to close it exactly once (close() is interposed) */
+    int fds[2] = { -1, -1 }; int fd = -1; size_t k;
+    if (! strcmp (r->kind, "pipe"))
+    {
+      if (0 == pipe (fds))
+      { for (k = 0; k < r->size && k < 4096; k++) { char ch = (char) pat (rid, k); if (1 != write (fds[1], &ch, 1)) break; }
+        syscall (SYS_close, fds[1]); fd = fds[0]; }
+    }
+    else
+    {
+      fd = open ("/tmp", O_TMPFILE | O_RDWR, 0600);
+      for (k = 0; fd >= 0 && k < r->size && k < 4096; k++) { char ch = (char) pat (rid, k); if (1 != write (fd, &ch, 1)) break; }
+    }
+    if (fd >= 0)
+    {
+      r->rfd = fd; r->rfd_open = 1;
+      if (! strcmp (r->kind, "pipe")) LIB (m = MHD_create_response_from_pipe (fd));
+      else LIB (m = MHD_create_response_from_fd (r->size, fd));
+      if (NULL == m) { r->rfd_open = 0; syscall (SYS_close, fd); }
+    }
   }
   else if (! strcmp (r->kind, "upgrade"))
   {
@@ -532,6 +615,7 @@ static void reset_all (void)
   for (i = 0; i < MAXRESP; i++)
     if (hr[i].obj) { struct MHD_Response *m = hr[i].obj; LIB (MHD_destroy_response (m)); }
   for (c = 0; c < MAXC; c++) { if (hc[c].used && hc[c].cfd >= 0) close (hc[c].cfd); }
+  for (i = 0; i < MAXRESP; i++) if (hr[i].used && hr[i].rfd_open) syscall (SYS_close, hr[i].rfd);  /* leaked with its response */
   unpark_all ();
   memset (hc, 0, sizeof (hc));
   memset (hr, 0, sizeof (hr));
@@ -596,6 +680,8 @@ int main (void)
       {
         if (kv (l.w[i], "kind", &v)) { memset (r->kind, 0, sizeof (r->kind)); strncpy (r->kind, v, sizeof (r->kind) - 1); }
         else if (kv (l.w[i], "size", &v)) r->size = (size_t) atol (v);
+        else if (kv (l.w[i], "n", &v)) r->n = (unsigned) atoi (v);
+        else if (kv (l.w[i], "mix", &v)) r->mix = (unsigned) atoi (v);
       }
       r->obj = make_resp ((int) a);
       report_fired ();
@@ -693,10 +779,10 @@ int main (void)
     else if (! strcmp (op, "req") && l.n >= 4 && lp_u64 (l.w[1], &a) && lp_u64 (l.w[3], &b) && a < MAXC && hc[a].used
              && hc[a].cfd >= 0 && hc[a].nreq_sent < 8 && b < MAXRESP
              && l.n <= 4 + MAXPRE
-             && (! strcmp (l.w[2], "reply") || ! strcmp (l.w[2], "replyc") || ! strcmp (l.w[2], "suspend") || ! strcmp (l.w[2], "upgrade")
+             && (! strcmp (l.w[2], "reply") || ! strcmp (l.w[2], "replyc") || ! strcmp (l.w[2], "suspend") || ! strcmp (l.w[2], "upgrade") || ! strcmp (l.w[2], "upgradec")
                  || (! strcmp (l.w[2], "bad") && 4 == l.n)))
     {
-      const char *rq = ! strcmp (l.w[2], "upgrade") ? REQ_UPG : ! strcmp (l.w[2], "bad") ? REQ_BAD : REQ_PLAIN; size_t n = strlen (rq), offn = 0;
+      const char *rq = (! strcmp (l.w[2], "upgrade") || ! strcmp (l.w[2], "upgradec")) ? REQ_UPG : ! strcmp (l.w[2], "bad") ? REQ_BAD : REQ_PLAIN; size_t n = strlen (rq), offn = 0;
       int k = hc[a].nreq_sent++;
       strcpy (hc[a].beh[k], l.w[2]); hc[a].behrid[k] = (int) b;
       hc[a].npre[k] = 0;
